@@ -112,7 +112,10 @@ def structure(ctx):
                 ctx.violate("marked-program-rejected", f"{jid}: program with forwarded attributes expands {r['status']}", {"job": jid, "result": {k: v for k, v in r.items() if k != 'view'}})
                 bad = True
                 continue
+            pid_ = jid[len(key) + 1:]
             for m, locs in find_markers(r["view"]).items():
+                if isinstance(m, tuple) and m[0] == "derive-text":
+                    m = (m[0], pid_) + m[1:]   # per part: two interfaces may generate same-named message types
                 found.setdefault(m, []).extend(locs)
         if bad:
             continue
@@ -121,7 +124,7 @@ def structure(ctx):
             got = found.get(m, [])
             d = {"program": key, "marker": m, "expected": want, "found": got}
             if want[0] == "derive":
-                got = found.get(("derive-text", want[1], want[2]), [])
+                got = found.get(("derive-text", m[1], want[1], want[2]), [])
                 d["found"] = got
                 if len(got) != 1:
                     ctx.violate("misplaced:derive", f"{key}: forwarded `{want[2]}` appears {len(got)} times on {want[1]}", d)
